@@ -1,4 +1,7 @@
 import PvProofs.C18
+import PvProofs.C18Trigger
+import PvProofs.C07
+import PvProofs.C02
 #print axioms PvProofs.C18.import_export
 #print axioms PvProofs.C18.export_validates
 #print axioms PvProofs.C18.set_sorted
@@ -11,3 +14,10 @@ import PvProofs.C18
 #print axioms PvProofs.C18.keeper_state_constant
 #print axioms PvProofs.C18.sorted_iteration_order_independent
 #print axioms PvProofs.C18.commutative_iteration_order_independent
+-- module-level genesis round trips proved over the module models of other properties (cited by C18)
+#print axioms PvProofs.C18Trigger.genesis_round_trip
+#print axioms PvProofs.C18Trigger.export_validates
+#print axioms PvProofs.C18Trigger.continuation_after_round_trip
+#print axioms PvProofs.C07.regenesis_preserves_partial_observation
+#print axioms PvProofs.C02.initGenesis_accepts_iff
+#print axioms PvProofs.C02.from_matching_genesis
